@@ -243,7 +243,7 @@ func init() {
 	register(&propertySpec{
 		ID:      "C10",
 		Explain: "Static gate / pairing rules for the rule lifecycle: every Location entry refuses on the disabled edge before touching state (GATE-E), dispatch appends a rule only behind RuleEnabled == true (DISP-ENABLED), re-adding or removing an id drops the cached parse (CACHE-INV), and RemRule removes the disabled flag (REM-FLAG). Does not decide the state machine over histories, reload survival or inherited disablement.",
-		Rules:   []ruleFn{ruleGateE, ruleDispEnabled, ruleCacheInv, ruleRemFlag, ruleDeleteWithProvenance, ruleIdxRem, ruleStoreBeforeMem("C10"), ruleGateFire, ruleIdxRollback("C10"), ruleAddExpiresStale, rulePropDwAny("C10")},
+		Rules:   []ruleFn{ruleGateE, ruleDispEnabled, ruleCacheInv, ruleRemFlag, ruleDeleteWithProvenance, ruleIdxRem, ruleStoreBeforeMem("C10"), ruleGateFire, ruleIdxRollback("C10"), ruleAddExpiresStale, rulePropDwAny("C10"), ruleCacheGen("C10")},
 	})
 }
 
@@ -261,11 +261,26 @@ func ruleIdSetAtCreation(w *World) bool {
 		// made only `if rule.Id == ""` keeps an id the rule's body brought along)
 		ok := false
 		var pubs []ssa.Instruction
+		publishes := func(g *ssa.Function) bool {
+			found := false
+			allInstrs(g, func(in ssa.Instruction) {
+				if mu, isMU := in.(*ssa.MapUpdate); isMU {
+					if nm2, f2, _, isF := loadedField(mu.Map); isF && f2 == "cachedRules" && typeKey(nm2) == typeKey(nm) {
+						found = true
+					}
+				}
+			})
+			return found
+		}
 		allInstrs(fn, func(in ssa.Instruction) {
 			if mu, isMU := in.(*ssa.MapUpdate); isMU {
 				if nm2, f2, _, isF := loadedField(mu.Map); isF && f2 == "cachedRules" && typeKey(nm2) == typeKey(nm) {
 					pubs = append(pubs, in)
 				}
+			}
+			// or through a helper of the state that does the map update (under the cache's own lock)
+			if c := callOf(in); c != nil && c.StaticCallee() != nil && c.StaticCallee() != fn && len(c.StaticCallee().Blocks) > 0 && publishes(c.StaticCallee()) {
+				pubs = append(pubs, in)
 			}
 		})
 		allInstrs(fn, func(in ssa.Instruction) {
